@@ -26,6 +26,9 @@ pub struct Obj {
     pub lay: Option<(u8, usize, u64, usize, usize)>,
     /// per strong slot: the representation the pointer was stored in (C19)
     pub conv: Vec<Conv>,
+    /// its destructor unwound (injected fault): if that happened while the sweep was freeing it,
+    /// the crate leaks its block by construction - accounted for, narrowly, by the oracles
+    pub drop_faulted: bool,
 }
 
 #[derive(Clone, Debug, Default)]
